@@ -149,6 +149,22 @@ func captureSlotsInUse(codes []int, capsize int) []bool {
 	return inUse
 }
 
+// UsesStartAnchor reports whether the program tests the search origin (\G) anywhere.
+// Such a program gives different results when a caller moves the start of the scan.
+func (c *Code) UsesStartAnchor() bool {
+	if c == nil {
+		return false
+	}
+	for pos := 0; pos < len(c.Codes); {
+		op := InstOp(c.Codes[pos]) & Mask
+		if op == Start {
+			return true
+		}
+		pos += opcodeSize(op)
+	}
+	return false
+}
+
 // PrepareCharSetASCIIBitmaps builds bounded ASCII lookup tables for compiled
 // character classes before the regexp is shared across goroutines.
 func (c *Code) PrepareCharSetASCIIBitmaps() {
